@@ -2,6 +2,7 @@ import PyaModel.Core.Sexp
 import PyaModel.Spec.Mem
 import PyaModel.Generated.ClassTable
 import PyaModel.Spec.WF
+import PyaModel.Spec.D04
 /-! Line protocol driver for the value kernels (C03, C04, …).
 in : `ca <0|1> <e> <a>` | `mem <o> <T>` | `beq <a> <b>`      (s-expressions, Core/Sexp.lean)
 out: `1` | `0` | `bad-op`
@@ -23,6 +24,10 @@ def handle (line : String) : String :=
   | some [.atom "d03", t, o] =>
     match t.toTy, o.toObj with
     | some t, some o => (match d03Classes liveTable t o with | [] => "-" | cs => ",".intercalate cs)
+    | _, _ => "bad-op"
+  | some [.atom "d04", a, b] =>
+    match a.toTy, b.toTy with
+    | some a, some b => (match d04Classes liveTable a b with | [] => "-" | cs => ",".intercalate cs)
     | _, _ => "bad-op"
   | some [.atom "beq", a, b] =>
     match a.toTy, b.toTy with
